@@ -48,6 +48,7 @@ def suite(wt):
 def main():
     args = [a for a in sys.argv[1:] if not a.startswith('--')]
     checks_only = '--checks-only' in sys.argv
+    refactor = '--refactor' in sys.argv   # behaviour-preserving change
     src, prop, name = args[:3]
     seed = os.path.join(src, 'SEED')
     if not os.path.isdir(seed):
@@ -122,7 +123,13 @@ def main():
         meta['checks_fired'] = fired
         meta['detected_by_checks_of'] = sorted(
             p for p, v in fired.items() if v['rc'] == 1)
-        ok = (rc0 == 0 and rc1 == 1 and not missing)
+        ok = (rc0 == 0 and rc1 == (0 if refactor else 1) and not missing)
+        if refactor:
+            meta['kind'] = 'behaviour-preserving refactoring'
+            meta['false_alarms'] = sorted(
+                p for p, v in fired.items() if v['rc'] == 1)
+            meta['undecided'] = sorted(
+                p for p, v in fired.items() if v['rc'] == 2)
         meta['confirmed'] = ok
         meta['what_ran'] = (
             'fresh worktree of /repo HEAD; demo without patch (exit %s), '
@@ -145,8 +152,8 @@ def main():
             if checks_only and old_meta.get('what_ran'):
                 meta['what_ran'] = old_meta['what_ran'] + \
                     ' [checks re-run later against the same patch]'
-            meta['expect'] = 'violation' if meta['detected_by_checks_of'] \
-                else 'missed'
+            meta['expect'] = 'silent' if refactor else (
+                'violation' if meta['detected_by_checks_of'] else 'missed')
             json.dump(meta, open(os.path.join(dst, 'meta.json'), 'w'),
                       indent=1)
             print('STORED', dst)
